@@ -9,6 +9,7 @@ import (
 	"os"
 	"os/exec"
 	"runtime/debug"
+	"strconv"
 	"strings"
 	"sync"
 	"syscall"
@@ -35,6 +36,7 @@ type ChildReply struct {
 }
 
 const childEnv = "VERIF_CHILD"
+const childASEnv = "VERIF_CHILD_AS"
 
 // DefaultChildAS is the child's RLIMIT_AS.
 const DefaultChildAS = 4 << 30
@@ -46,6 +48,9 @@ func MaybeChild(handlers map[string]ChildHandler) {
 		return
 	}
 	limit := uint64(DefaultChildAS)
+	if v, err := strconv.ParseUint(os.Getenv(childASEnv), 10, 64); err == nil && v > 0 {
+		limit = v
+	}
 	_ = syscall.Setrlimit(syscall.RLIMIT_AS, &syscall.Rlimit{Cur: limit, Max: limit})
 	debug.SetGCPercent(50)
 	in := os.NewFile(3, "req")
@@ -213,6 +218,33 @@ func (s *Sandbox) Exec(kind string, payload []byte, timeout time.Duration) Child
 		rep = s.exec1(kind, payload, timeout)
 	}
 	return rep
+}
+
+// TightAS is the address-space limit of ExecTight's throw-away child.
+const TightAS = 9 << 28 // 2.25 GiB: the Go runtime of the test binary needs about 2 GiB of address space to start; this leaves a few hundred MiB
+
+// ExecTight runs one request in a throw-away child whose address space is
+// capped at TightAS. It tells a request that is slow because the code under
+// test is zeroing a gigabyte-sized up-front allocation (which under this cap
+// fails at once with the runtime's out-of-memory error) from one that hangs.
+func (s *Sandbox) ExecTight(kind string, payload []byte, timeout time.Duration) ChildReply {
+	t := &Sandbox{ExtraEnv: append(append([]string{}, s.ExtraEnv...), fmt.Sprintf("%s=%d", childASEnv, uint64(TightAS)))}
+	defer t.Close()
+	return t.exec1(kind, payload, timeout)
+}
+
+// ExecPatient is Exec for a request that already timed out once: when the
+// tight child dies of out-of-memory the reply says so (OOM, Died); otherwise
+// the request is given three times the patience in a fresh child, and only a
+// second silence is reported as TimedOut.
+func (s *Sandbox) ExecPatient(kind string, payload []byte, timeout time.Duration) (rep ChildReply, reclassified bool) {
+	if tight := s.ExecTight(kind, payload, timeout); tight.Died && tight.OOM {
+		return tight, true
+	}
+	s.mu.Lock()
+	defer s.mu.Unlock()
+	s.kill()
+	return s.exec1(kind, payload, 3*timeout), false
 }
 
 func (s *Sandbox) exec1(kind string, payload []byte, timeout time.Duration) ChildReply {
